@@ -11,11 +11,12 @@
    sync.RWMutex itself, races inside values and in the schema library, the unsafe variant
    UserSchemas (excluded by name in LockDiscipline.unsafe_excluded), callbacks that re-enter the
    same collection (would deadlock: sync.RWMutex is not re-entrant). *)
-From Coq Require Import List NArith Bool.
+From Coq Require Import String.
+From Coq Require Import List NArith Bool Permutation.
 From JV.lib Require Import Bytes.
-From JV.gen Require Import Collections.
-From JV.model Require Import OrderedMap LockDiscipline.
-From JV.proofs Require Import OrderedMapProofs.
+From JV.gen Require Import Collections RulesFacts.
+From JV.model Require Import OrderedMap LockDiscipline RulesBuilder RulesLocks.
+From JV.proofs Require Import OrderedMapProofs RulesBuilderProofs.
 Import ListNotations.
 
 (* Atomicity premise, on the regenerated facts: in every safe collection every writer holds
@@ -127,3 +128,333 @@ Theorem new_set_keeps_duplicates :
     os_len _ (os_new _ beq vv) <> List.length (os_data _ (os_new _ beq vv)).
 Proof. exact new_set_keeps_duplicates_lemma. Qed.
 Print Assumptions new_set_keeps_duplicates.
+
+
+(* ====================================================================================================
+   The hand-written pair catalog.RulesBuilder / catalog.Rules (catalog/rules_builder.go, catalog/rules.go),
+   model/RulesBuilder.v, lemmas in proofs/RulesBuilderProofs.v.
+
+   WHAT IS MODELLED.  One struct {data []Rule; index map[string]int} reached through b.rules.
+     Set(k, r)   one atomic step  [rb_set]:    r.Key = k; index[k] = len(data); data = append(data, r).
+                 The lock is held for the whole body (rules_builder.go:20-21 are Lock / defer Unlock).  A second
+                 Set of a key APPENDS a second rule with that key and re-points the index: nothing is overwritten.
+     Append(r)   one atomic step  [rb_append]: data = append(data, r)  (rules_builder.go:30-31 lock prefix);
+                 the rule keeps the Key the caller left in it and is not indexed.
+     Rules()     [rb_rules] = identity: it returns the pointer b.rules (an alias, not a copy) WITHOUT locking.
+     Len/Has/Get/Each/MarshalJSON of *Rules: functions of the state, NO lock (the struct has no mutex).
+     NewRules(d) [rs_new].
+   ATOMICITY.  "Set and Append are atomic steps" is justified by rules_locks_ok / rules_ops_ok below, computed on
+   gen/RulesFacts.v, which go2coq regenerates from the two files on every run: the lock prefix must be the first
+   two statements, the mutex may be mentioned nowhere else, the rest of the body must match the normal form of the
+   operation statement by statement (so a statement moved in front of Lock(), a dropped defer, an early Unlock, a
+   new statement all make the generator or these obligations fail), no field of the two structs is written
+   outside the two files.  Hence every concurrent history of writers is one of the sequences [ops], schedules [sc]
+   (lists of (goroutine, call) in the order the lock was granted) or interleavings [l] quantified below.
+   READERS.  They take no lock (rules_readers_take_no_lock records it from the source), so they are NOT atomic with
+   respect to a running Set: unlocked_get_during_set_panics is what an unlocked reader can hit.  The theorems
+   about Get/Has/Len therefore speak about a state no writer is working on (writers joined), which is the only
+   way the library uses the pair: newRulesBuilder is unexported and the builder never leaves the function that
+   created it (catalog/schema.go:53, catalog/schema_jsight.go:125); concurrent readers alone are harmless (they
+   write nothing).  The Go memory model and sync.RWMutex itself are outside the proof (c16.py: race detector).
+   K, V arbitrary; keq decides equality (Go's == on string). *)
+
+Theorem rules_locks_ok : rules_locks_check = true.
+Proof. exact rules_locks_ok_lemma. Qed.
+Print Assumptions rules_locks_ok.
+
+(* every function of the two files denotes the operation of the model that carries its name; none is missing *)
+Theorem rules_ops_ok : rules_ops_check = true.
+Proof. exact rules_ops_ok_lemma. Qed.
+Print Assumptions rules_ops_ok.
+
+(* recorded from the source, not a safety condition: Rules() and every method of *Rules take no lock *)
+Theorem rules_readers_take_no_lock : rules_readers_unlocked = true.
+Proof. exact rules_readers_unlocked_lemma. Qed.
+Print Assumptions rules_readers_take_no_lock.
+
+(* INVARIANT: every index entry points inside data, at a rule that carries the key.  It holds initially and
+   every atomic step preserves it, hence it holds in every reachable state. *)
+Theorem rules_index_sound_initially :
+  forall (K V : Type) (keq : K -> K -> bool), rb_inv K V keq rb_new.
+Proof. exact inv_new. Qed.
+Print Assumptions rules_index_sound_initially.
+
+Theorem rules_index_sound_preserved :
+  forall (K V : Type) (keq : K -> K -> bool), (forall a b, keq a b = true <-> a = b) ->
+  forall (s : rstate K V) (o : wop K V), rb_inv K V keq s -> rb_inv K V keq (rb_step K V keq s o).
+Proof. exact inv_step. Qed.
+Print Assumptions rules_index_sound_preserved.
+
+Theorem rules_index_sound :
+  forall (K V : Type) (keq : K -> K -> bool), (forall a b, keq a b = true <-> a = b) ->
+  forall (ops : list (wop K V)) (k : K) (i : nat),
+  idx_get K keq k (rindex (rb_run K V keq ops)) = Some i ->
+  (i < List.length (rdata (rb_run K V keq ops)))%nat /\
+  exists r, nth_error (rdata (rb_run K V keq ops)) i = Some r /\ rkey r = k.
+Proof. exact inv_run_lemma. Qed.
+Print Assumptions rules_index_sound.
+
+(* under the invariant Get never indexes out of range and returns a rule carrying the key asked for *)
+Theorem rules_get_never_panics :
+  forall (K V : Type) (keq : K -> K -> bool) (s : rstate K V) (k : K),
+  rb_inv K V keq s -> exists o, rs_get K V keq s k = GOk o.
+Proof. exact get_no_panic. Qed.
+Print Assumptions rules_get_never_panics.
+
+Theorem rules_get_returns_its_key :
+  forall (K V : Type) (keq : K -> K -> bool) (s : rstate K V) (k : K) (r : rule K V),
+  rb_inv K V keq s -> rs_get K V keq s k = GOk (Some r) -> rkey r = k.
+Proof. exact get_returns_its_key. Qed.
+Print Assumptions rules_get_returns_its_key.
+
+(* THE STATE IS THE HISTORY: data lists one rule per call, in call order; the index of k is the position of the
+   last Set of k.  "Every appended rule is present exactly once": position p of data is the rule of call p. *)
+Theorem rules_data_is_history :
+  forall (K V : Type) (keq : K -> K -> bool) (ops : list (wop K V)),
+  rdata (rb_run K V keq ops) = map (entry_of K V) ops.
+Proof. exact run_data_lemma. Qed.
+Print Assumptions rules_data_is_history.
+
+Theorem rules_index_is_last_set :
+  forall (K V : Type) (keq : K -> K -> bool), (forall a b, keq a b = true <-> a = b) ->
+  forall (ops : list (wop K V)) (k : K),
+  idx_get K keq k (rindex (rb_run K V keq ops)) = last_set_pos K V keq k 0 ops.
+Proof. exact run_index_lemma. Qed.
+Print Assumptions rules_index_is_last_set.
+
+Theorem rules_every_call_stored :
+  forall (K V : Type) (keq : K -> K -> bool) (ops : list (wop K V)) (p : nat) (o : wop K V),
+  nth_error ops p = Some o -> nth_error (rdata (rb_run K V keq ops)) p = Some (entry_of K V o).
+Proof. exact every_call_stored_lemma. Qed.
+Print Assumptions rules_every_call_stored.
+
+Theorem rules_len_counts_calls :
+  forall (K V : Type) (keq : K -> K -> bool) (ops : list (wop K V)),
+  rs_len K V (rb_run K V keq ops) = List.length ops.
+Proof. exact len_counts_calls_lemma. Qed.
+Print Assumptions rules_len_counts_calls.
+
+(* NO UPDATE IS LOST: Get k returns the rule {Key: k, value of the LAST Set of k in the history} *)
+Theorem rules_no_lost_update :
+  forall (K V : Type) (keq : K -> K -> bool), (forall a b, keq a b = true <-> a = b) ->
+  forall (ops : list (wop K V)) (k : K),
+  rs_get K V keq (rb_run K V keq ops) k =
+  GOk (option_map (fun v => {| rkey := k; rval := v |}) (last_set K V keq k ops)).
+Proof. exact get_last_set_lemma. Qed.
+Print Assumptions rules_no_lost_update.
+
+Theorem rules_last_set_wins :
+  forall (K V : Type) (keq : K -> K -> bool), (forall a b, keq a b = true <-> a = b) ->
+  forall (ops : list (wop K V)) (k : K) (x : rule K V),
+  rs_get K V keq (rb_run K V keq (ops ++ [WSet k x])) k = GOk (Some {| rkey := k; rval := rval x |}).
+Proof. exact rb_last_set_wins_lemma. Qed.
+Print Assumptions rules_last_set_wins.
+
+Theorem rules_has_iff_set :
+  forall (K V : Type) (keq : K -> K -> bool), (forall a b, keq a b = true <-> a = b) ->
+  forall (ops : list (wop K V)) (k : K),
+  rs_has K V keq (rb_run K V keq ops) k = true <-> In k (rb_set_keys K V ops).
+Proof. exact has_iff_set_lemma. Qed.
+Print Assumptions rules_has_iff_set.
+
+(* every Set is reachable through the index: its key resolves to its own position or to a later Set of that key *)
+Theorem rules_every_set_indexed :
+  forall (K V : Type) (keq : K -> K -> bool), (forall a b, keq a b = true <-> a = b) ->
+  forall (ops : list (wop K V)) (p : nat) (k : K) (x : rule K V),
+  nth_error ops p = Some (WSet k x) ->
+  exists j y, idx_get K keq k (rindex (rb_run K V keq ops)) = Some j /\ (p <= j)%nat /\
+              nth_error ops j = Some (WSet k y) /\
+              rs_get K V keq (rb_run K V keq ops) k = GOk (Some {| rkey := k; rval := rval y |}).
+Proof. exact every_set_indexed_lemma. Qed.
+Print Assumptions rules_every_set_indexed.
+
+(* EVERY KEY ONCE.  In ANY state the rules Get can reach carry pairwise different keys ... *)
+Theorem rules_indexed_keys_once :
+  forall (K V : Type) (keq : K -> K -> bool) (s : rstate K V),
+  NoDup (map rkey (rs_indexed K V keq s)).
+Proof. exact indexed_keys_nodup_lemma. Qed.
+Print Assumptions rules_indexed_keys_once.
+
+(* ... and when no key is Set twice they are exactly the rules the Set calls left, in call order: the order of
+   first insertion is the order in data. *)
+Theorem rules_first_insertion_order :
+  forall (K V : Type) (keq : K -> K -> bool), (forall a b, keq a b = true <-> a = b) ->
+  forall ops : list (wop K V),
+  NoDup (rb_set_keys K V ops) ->
+  rs_indexed K V keq (rb_run K V keq ops) = map (entry_of K V) (filter (is_set K V) ops) /\
+  map rkey (rs_indexed K V keq (rb_run K V keq ops)) = rb_set_keys K V ops.
+Proof.
+  exact (fun K V keq Hk ops Hnd =>
+           conj (indexed_when_keys_once_lemma K V keq Hk ops Hnd) (rb_first_insertion_order_lemma K V keq Hk ops Hnd)).
+Qed.
+Print Assumptions rules_first_insertion_order.
+
+(* FINDING, stated as proved: Set does not overwrite.  After Set(k,x); Set(k,y) data holds BOTH rules under the
+   key k (Each and MarshalJSON list the key twice, Len is 2) while Get reaches the second only.  "Every key
+   appears exactly once in the order" therefore holds for a RulesBuilder only when no key is Set twice
+   (rules_first_insertion_order); the library's two call sites Set the keys of an ordered map of the schema
+   library, which are distinct. *)
+Theorem rules_set_twice_keeps_both :
+  forall (K V : Type) (keq : K -> K -> bool), (forall a b, keq a b = true <-> a = b) ->
+  forall (k : K) (x y : rule K V),
+  let s := rb_run K V keq [WSet k x; WSet k y] in
+  rdata s = [{| rkey := k; rval := rval x |}; {| rkey := k; rval := rval y |}] /\
+  ~ NoDup (map rkey (rdata s)) /\
+  rs_get K V keq s k = GOk (Some {| rkey := k; rval := rval y |}) /\
+  rs_indexed K V keq s = [{| rkey := k; rval := rval y |}] /\
+  rs_len K V s = 2%nat.
+Proof. exact set_twice_keeps_both_lemma. Qed.
+Print Assumptions rules_set_twice_keeps_both.
+
+(* ---- concurrency: schedules (lists of (goroutine, call)) ---- *)
+
+(* everything above for an arbitrary schedule of any number of goroutines *)
+Theorem rules_any_schedule :
+  forall (K V : Type) (keq : K -> K -> bool), (forall a b, keq a b = true <-> a = b) ->
+  forall sc : rb_sched K V,
+  rb_inv K V keq (rb_run_sched K V keq sc) /\
+  rdata (rb_run_sched K V keq sc) = map (entry_of K V) (rb_sched_ops K V sc) /\
+  (forall k, rs_get K V keq (rb_run_sched K V keq sc) k =
+             GOk (option_map (fun v => {| rkey := k; rval := v |}) (last_set K V keq k (rb_sched_ops K V sc)))) /\
+  (forall k, rs_has K V keq (rb_run_sched K V keq sc) k = true <-> exists t x, In (t, WSet k x) sc) /\
+  rs_len K V (rb_run_sched K V keq sc) = List.length sc.
+Proof. exact any_schedule_lemma. Qed.
+Print Assumptions rules_any_schedule.
+
+(* determinism: the final state is a function of the order in which the lock was granted, nothing else *)
+Theorem rules_sched_deterministic :
+  forall (K V : Type) (keq : K -> K -> bool) (sc1 sc2 : rb_sched K V),
+  rb_sched_ops K V sc1 = rb_sched_ops K V sc2 -> rb_run_sched K V keq sc1 = rb_run_sched K V keq sc2.
+Proof. exact sched_deterministic_lemma. Qed.
+Print Assumptions rules_sched_deterministic.
+
+(* two schedules of the same per-goroutine programs store the same rules (as a multiset) and as many; if
+   moreover every key is Set by one goroutine only, every Get and Has answers alike *)
+Theorem rules_sched_content_independent :
+  forall (K V : Type) (keq : K -> K -> bool), (forall a b, keq a b = true <-> a = b) ->
+  forall sc1 sc2 : rb_sched K V,
+  (forall t, rb_proj K V t sc1 = rb_proj K V t sc2) ->
+  Permutation (rdata (rb_run_sched K V keq sc1)) (rdata (rb_run_sched K V keq sc2)) /\
+  rs_len K V (rb_run_sched K V keq sc1) = rs_len K V (rb_run_sched K V keq sc2) /\
+  (keys_owned K V sc1 ->
+   forall k, rs_get K V keq (rb_run_sched K V keq sc1) k = rs_get K V keq (rb_run_sched K V keq sc2) k /\
+             rs_has K V keq (rb_run_sched K V keq sc1) k = rs_has K V keq (rb_run_sched K V keq sc2) k).
+Proof. exact sched_content_independent_lemma. Qed.
+Print Assumptions rules_sched_content_independent.
+
+(* ---- concurrency: interleavings of per-goroutine call lists ---- *)
+
+(* the two formulations describe the same histories *)
+Theorem rules_interleaving_is_schedule :
+  forall (K V : Type) (ths : list (list (wop K V))) (l : list (wop K V)),
+  interleaves ths l ->
+  exists sc : rb_sched K V, rb_sched_ops K V sc = l /\ forall t, rb_proj K V t sc = nth t ths [].
+Proof. exact interleaves_to_sched. Qed.
+Print Assumptions rules_interleaving_is_schedule.
+
+Theorem rules_schedule_is_interleaving :
+  forall (K V : Type) (n : nat) (sc : rb_sched K V),
+  (forall x, In x sc -> (fst x < n)%nat) ->
+  interleaves (map (fun t => rb_proj K V t sc) (seq 0 n)) (rb_sched_ops K V sc).
+Proof. exact (fun K V => @sched_interleaves (wop K V)). Qed.
+Print Assumptions rules_schedule_is_interleaving.
+
+(* for EVERY interleaving of any number of goroutines' calls: the invariant; data is itself an interleaving of
+   what each goroutine stored (nothing lost, nothing twice, each goroutine's order kept); Get is the last Set *)
+Theorem rules_any_interleaving :
+  forall (K V : Type) (keq : K -> K -> bool), (forall a b, keq a b = true <-> a = b) ->
+  forall (ths : list (list (wop K V))) (l : list (wop K V)),
+  interleaves ths l ->
+  rb_inv K V keq (rb_run K V keq l) /\
+  interleaves (map (map (entry_of K V)) ths) (rdata (rb_run K V keq l)) /\
+  (forall k, rs_get K V keq (rb_run K V keq l) k =
+             GOk (option_map (fun v => {| rkey := k; rval := v |}) (last_set K V keq k l))) /\
+  (forall k, rs_has K V keq (rb_run K V keq l) k = true <-> exists th, In th ths /\ In k (rb_set_keys K V th)) /\
+  rs_len K V (rb_run K V keq l) = List.length (List.concat ths).
+Proof. exact any_interleaving_lemma. Qed.
+Print Assumptions rules_any_interleaving.
+
+(* the content is independent of the interleaving: same rules as a multiset, same Len; with disjoint per-goroutine
+   key sets also the same answer of Get and Has for every key *)
+Theorem rules_interleaving_content_independent :
+  forall (K V : Type) (keq : K -> K -> bool), (forall a b, keq a b = true <-> a = b) ->
+  forall (ths : list (list (wop K V))) (l1 l2 : list (wop K V)),
+  interleaves ths l1 -> interleaves ths l2 ->
+  Permutation (rdata (rb_run K V keq l1)) (rdata (rb_run K V keq l2)) /\
+  rs_len K V (rb_run K V keq l1) = rs_len K V (rb_run K V keq l2) /\
+  (keys_disjoint K V ths ->
+   forall k, rs_get K V keq (rb_run K V keq l1) k = rs_get K V keq (rb_run K V keq l2) k /\
+             rs_has K V keq (rb_run K V keq l1) k = rs_has K V keq (rb_run K V keq l2) k).
+Proof. exact interleaving_content_independent_lemma. Qed.
+Print Assumptions rules_interleaving_content_independent.
+
+(* Get returns what the key's only writer wrote last, whatever the other goroutines did in between *)
+Theorem rules_get_own_writer :
+  forall (K V : Type) (keq : K -> K -> bool), (forall a b, keq a b = true <-> a = b) ->
+  forall (ths : list (list (wop K V))) (l : list (wop K V)) (t : nat) (k : K),
+  interleaves ths l -> keys_disjoint K V ths -> In k (rb_set_keys K V (nth t ths [])) ->
+  rs_get K V keq (rb_run K V keq l) k = rs_get K V keq (rb_run K V keq (nth t ths [])) k.
+Proof. exact get_own_writer_lemma. Qed.
+Print Assumptions rules_get_own_writer.
+
+(* disjoint key sets and no goroutine Sets a key twice: every key once in the whole history, hence
+   (rules_first_insertion_order) once among the rules Get can reach, in insertion order *)
+Theorem rules_disjoint_keys_once :
+  forall (K V : Type) (ths : list (list (wop K V))) (l : list (wop K V)),
+  interleaves ths l -> keys_disjoint K V ths -> (forall th, In th ths -> NoDup (rb_set_keys K V th)) ->
+  NoDup (rb_set_keys K V l).
+Proof. exact disjoint_keys_once_lemma. Qed.
+Print Assumptions rules_disjoint_keys_once.
+
+(* the disjointness hypothesis is needed: a key Set from two goroutines ends with the value of whoever came last *)
+Theorem rules_shared_key_depends_on_interleaving :
+  forall (K V : Type) (keq : K -> K -> bool), (forall a b, keq a b = true <-> a = b) ->
+  forall (k : K) (x y : rule K V),
+  rval x <> rval y ->
+  let ths := [[WSet k x]; [WSet k y]] in
+  interleaves ths [WSet k x; WSet k y] /\ interleaves ths [WSet k y; WSet k x] /\
+  rs_get K V keq (rb_run K V keq [WSet k x; WSet k y]) k <> rs_get K V keq (rb_run K V keq [WSet k y; WSet k x]) k.
+Proof. exact shared_key_depends_on_interleaving_lemma. Qed.
+Print Assumptions rules_shared_key_depends_on_interleaving.
+
+(* the hypotheses are satisfiable: three goroutines, five keys, three anonymous rules, a mixed schedule *)
+Theorem rules_hypotheses_satisfiable :
+  interleaves rex_threads rex_l /\ interleaves rex_threads rex_l2 /\ rex_l <> rex_l2 /\
+  keys_disjoint bytes bytes rex_threads /\
+  (forall th, In th rex_threads -> NoDup (rb_set_keys bytes bytes th)).
+Proof.
+  exact (conj rex_interleaves (conj rex_interleaves2 (conj rex_differ (conj rex_keys_disjoint rex_each_goroutine_sets_its_keys_once)))).
+Qed.
+Print Assumptions rules_hypotheses_satisfiable.
+
+(* FINDING, stated as proved: the readers are not protected.  Set is  index[k] = len(data)  THEN
+   data = append(data, r)  (rb_set = rb_push after rb_set_index, by definition); a Get(k) that runs between the two
+   statements - possible because Get takes no lock (rules_readers_take_no_lock) - finds index[k] = len(data) and
+   indexes data out of range, in EVERY state.  Not reachable through the exported API today (see the header). *)
+Theorem unlocked_get_during_set_panics :
+  forall (K V : Type) (keq : K -> K -> bool), (forall a b, keq a b = true <-> a = b) ->
+  forall (s : rstate K V) (k : K),
+  rs_get K V keq (rb_set_index K V keq k s) k = GPanic "index out of range"%string.
+Proof. exact torn_set_get_panics_lemma. Qed.
+Print Assumptions unlocked_get_during_set_panics.
+
+(* why the lock has to cover BOTH statements of Set (what rules_locks_ok protects): were the index write and the
+   append two critical sections, two Sets could run  index(k1); index(k2); append(r2); append(r1)  and k1 would
+   resolve to the rule stored for k2; the invariant is lost. *)
+Theorem split_set_breaks_the_index :
+  forall (K V : Type) (keq : K -> K -> bool), (forall a b, keq a b = true <-> a = b) ->
+  forall (k1 k2 : K) (x1 x2 : rule K V),
+  k1 <> k2 ->
+  let s := rb_push K V {| rkey := k1; rval := rval x1 |}
+             (rb_push K V {| rkey := k2; rval := rval x2 |}
+                (rb_set_index K V keq k2 (rb_set_index K V keq k1 rb_new))) in
+  rs_get K V keq s k1 = GOk (Some {| rkey := k2; rval := rval x2 |}) /\ ~ rb_inv K V keq s.
+Proof. exact split_set_breaks_index_lemma. Qed.
+Print Assumptions split_set_breaks_the_index.
+
+(* NewRules(d) is Set(r.Key, r) for r in d: every theorem above applies to it *)
+Theorem rules_new_rules_is_sets :
+  forall (K V : Type) (keq : K -> K -> bool) (d : list (rule K V)),
+  rs_new K V keq d = rb_run K V keq (map (fun r => WSet (rkey r) r) d).
+Proof. exact new_rules_is_sets_lemma. Qed.
+Print Assumptions rules_new_rules_is_sets.
